@@ -49,14 +49,52 @@ import (
 
 // ------------------------------------------------------------------ dispatch
 
+// DispEv is one HTTP transaction as HAProxy hands it to the gateway (ID,
+// sequence id header) plus what the harness observed at the real dispatcher.
+// Seq / New are NOT inputs: identify() derives them (Go mirror of
+// theories/C17/Ident.v dx_seq + dev_gev KeySequence) for the monitor; the Coq
+// side derives them itself from the raw fields and cross-checks the mirror.
 type DispEv struct {
-	Seq        int  `json:"seq"`
-	New        bool `json:"is_new"`               // the request's ID equals its SequenceID
-	AskEarly   bool `json:"ask_early"`            // fixed-response remedy: the header that makes it answer
-	ProvStatus int  `json:"provider_status"`      // status of the provider's response when the request goes through
-	Early      bool `json:"early,omitempty"`      // observed: the gateway answered the request itself
-	Status     int  `json:"status,omitempty"`     // observed: status of the response the remedies saw
-	Note       string `json:"note,omitempty"`     // observed: anything unexpected (not compared)
+	ID         int    `json:"id"`                   // transaction id (HAProxy unique-id), token
+	HasHdr     bool   `json:"has_seq_header"`       // the request carries x-lunar-sequence-id
+	Hdr        int    `json:"seq_header,omitempty"` // its value (token)
+	AskEarly   bool   `json:"ask_early"`            // fixed-response remedy: the header that makes it answer
+	ProvStatus int    `json:"provider_status"`      // status of the provider's response when the request goes through
+	Early      bool   `json:"early,omitempty"`      // observed: the gateway answered the request itself
+	Status     int    `json:"status,omitempty"`     // observed: status of the response the remedies saw
+	Note       string `json:"note,omitempty"`       // observed: anything unexpected (not compared)
+	Seq        int    `json:"seq"`                  // derived (mirror): sequence charged
+	New        bool   `json:"is_new"`               // derived (mirror): the transaction opens the sequence
+}
+
+// txn builds the n-th transaction of a case: a request that opens sequence seq
+// has the transaction id seq and no sequence id header (or, hdrOnOpen, a header
+// naming itself); a later request of the call has a transaction id of its own
+// and the header naming the call.
+func txn(n, seq int, opening, hdrOnOpen, askEarly bool, prov int) DispEv {
+	ev := DispEv{AskEarly: askEarly, ProvStatus: prov}
+	if opening {
+		ev.ID = seq
+		if hdrOnOpen {
+			ev.HasHdr, ev.Hdr = true, seq
+		}
+	} else {
+		ev.ID = 1000 + n
+		ev.HasHdr, ev.Hdr = true, seq
+	}
+	identify(&ev)
+	return ev
+}
+
+// identify: what HAProxy makes the SequenceID (rootfs/etc/haproxy/haproxy.cfg:
+// the header when present, else the unique-id) and whether the transaction
+// opens the sequence (ID = SequenceID). Mirror of Ident.v dx_seq / dx_client.
+func identify(ev *DispEv) {
+	ev.Seq = ev.ID
+	if ev.HasHdr {
+		ev.Seq = ev.Hdr
+	}
+	ev.New = ev.ID == ev.Seq
 }
 
 type DispatchCase struct {
@@ -161,12 +199,15 @@ func dispatchOne(k *DispatchCase, ev *DispEv, n int, tree *config.EndpointPolicy
 			ev.Status = ev.ProvStatus
 		}
 	}()
-	seq := fmt.Sprintf("seq-%d", ev.Seq)
-	id := fmt.Sprintf("tx-%d", n)
-	if ev.New {
-		id = seq
-	}
+	// what HAProxy sends: id = unique-id, sequence_id = the header when present,
+	// else the unique-id (the raw fields only; ev.Seq / ev.New are not read here)
+	id := fmt.Sprintf("id-%d", ev.ID)
+	seq := id
 	headers := map[string]string{"host": engineHost}
+	if ev.HasHdr {
+		seq = fmt.Sprintf("id-%d", ev.Hdr)
+		headers["x-lunar-sequence-id"] = seq
+	}
 	if ev.AskEarly {
 		headers["early-response"] = "true"
 	}
@@ -221,13 +262,45 @@ func dispatchOne(k *DispatchCase, ev *DispEv, n int, tree *config.EndpointPolicy
 	return "noop"
 }
 
-// the responses the remedies were to see, in the vocabulary of the policy suite
+// the responses the remedies were to see, in the vocabulary of the policy
+// suite. Go MIRROR of the model's identification step (Ident.v: dc_ident =
+// dx_seq + dev_gev KeySequence): it feeds the monitor only. The suite's Coq
+// evaluation (run_dispatch) derives the same list itself from the raw
+// transactions and compares it with this one (field dcMirror).
 func dispatchAsPolicy(k *DispatchCase) *PolicyCase {
 	p := &PolicyCase{Attempts: k.Attempts, Cooldown: k.Cooldown, Multiplier: k.Multiplier, Ranges: k.Ranges, T0: 0, Outs: k.Outs}
-	for _, ev := range k.Events {
+	for i := range k.Events {
+		ev := &k.Events[i]
+		identify(ev)
 		p.Events = append(p.Events, PolEv{Kind: "resp", Seq: ev.Seq, New: ev.New, Status: ev.Status})
 	}
 	return p
+}
+
+// coqDispatch: the RAW case (theories/C17/Ident.v case_dispatch): no sequence
+// charged, no opening flag, no status chosen — only ids, header, early flag,
+// provider status, configured early status; plus the mirror and the answers.
+func coqDispatch(k *DispatchCase, mirror *PolicyCase) string {
+	rs := make([]string, len(k.Ranges))
+	for i, r := range k.Ranges {
+		rs[i] = c.Tuple(c.Z(int64(r[0])), c.Z(int64(r[1])))
+	}
+	txns := make([]string, len(k.Events))
+	for i, e := range k.Events {
+		hdr := "None"
+		if e.HasHdr {
+			hdr = "(Some " + c.Z(int64(e.Hdr)) + ")"
+		}
+		txns[i] = fmt.Sprintf("Build_dtxn %s %s %s %s", c.Z(int64(e.ID)), hdr, c.B(e.Early), c.Z(int64(e.ProvStatus)))
+	}
+	mir := make([]string, len(mirror.Events))
+	for i, e := range mirror.Events {
+		mir[i] = c.Tuple(c.Z(int64(e.Seq)), c.B(e.New), c.Z(int64(e.Status)))
+	}
+	return fmt.Sprintf("Build_case_dispatch %s %s %s %s %s %s %s %s",
+		c.Z(int64(k.Attempts)), c.Z(int64(k.Cooldown)), c.Z(int64(k.Multiplier)), c.List(rs),
+		c.Z(int64(k.EarlyStatus)), c.List(txns), c.List(mir),
+		c.MapList(k.Outs, func(s string) string { return c.Z(polCode(s)) }))
 }
 
 func runDispatch(o *c.Out, k DispatchCase) {
@@ -255,6 +328,14 @@ func runDispatch(o *c.Out, k DispatchCase) {
 			retries++
 		}
 		switch {
+		case !ev.HasHdr:
+			o.Count("dispatch:txn=no-seq-header")
+		case ev.Hdr == ev.ID:
+			o.Count("dispatch:txn=seq-header-names-itself")
+		default:
+			o.Count("dispatch:txn=seq-header-names-a-call")
+		}
+		switch {
 		case k.Outs[i] == "retry" || k.Outs[i] == "noop":
 			o.Count(fmt.Sprintf("dispatch:early=%v:out=%s", ev.Early, k.Outs[i]))
 		default:
@@ -268,7 +349,7 @@ func runDispatch(o *c.Out, k DispatchCase) {
 	// non-trivial: some sequence got more gateway-made retryable responses than
 	// its budget, and both answers occurred
 	nontrivial := maxRun > bound && retries > 0 && noopIn > 0
-	idx := o.Case("dispatch", coqPolicy(p), Case{Dispatch: &k}, nontrivial)
+	idx := o.Case("dispatch", coqDispatch(&k, p), Case{Dispatch: &k}, nontrivial)
 	o.MonitorChecked(1)
 	for _, h := range monitorPolicyTrace(p, Case{Dispatch: &k}) {
 		h.Suite, h.Index = "dispatch", idx
@@ -308,7 +389,7 @@ func genDispatch(o *c.Out) {
 					}
 					for round := 0; round < bound+extra; round++ {
 						for s := 1; s <= nseq; s++ {
-							k.Events = append(k.Events, DispEv{Seq: s, New: round == 0, AskEarly: true, ProvStatus: 500})
+							k.Events = append(k.Events, txn(len(k.Events), s, round == 0, (s+a)%2 == 0, true, 500))
 						}
 					}
 					k.RetryFirst = extra == 4
@@ -353,7 +434,14 @@ func genDispatch(o *c.Out) {
 			if r.Chance(1, 4) {
 				st = c.Pick(r, statuses)
 			}
-			k.Events = append(k.Events, DispEv{Seq: s, New: isNew, AskEarly: r.Chance(3, 4), ProvStatus: st})
+			ev := txn(len(k.Events), s, isNew, r.Chance(1, 3), r.Chance(3, 4), st)
+			if !isNew && r.Chance(1, 12) {
+				// a request without the header in the middle of the history: a call of
+				// its own (sequence = its transaction id), one transaction long
+				ev.HasHdr, ev.Hdr = false, 0
+				identify(&ev)
+			}
+			k.Events = append(k.Events, ev)
 		}
 		runDispatch(o, k)
 	}
